@@ -168,6 +168,8 @@ def main(argv=None):
     # ---- merge
     counters, sigs, samples, violations, known, notes, inconcl = {}, set(), [], [], [], [], []
     for i, r in enumerate(results):
+        if os.environ.get("VERIF_SHARD_TIMES"):
+            print(f"  shard {i} {jobs[i].get('spec', {}).get('kind', jobs[i].get('mode'))} wall={r.get('shard_wall', 0):.1f}s", flush=True)
         if not r.get("ok"):
             inconcl.append(r.get("error", "shard failed")[-1500:] + " | " + str(r.get("stderr", ""))[-800:])
         for k, v in r.get("counters", {}).items():
